@@ -59,6 +59,7 @@ var templates = []struct {
 	{"gsub_callback_loop", `local k = %d local n = 0 while true do string.gsub("abcdef", "%%a", function(c) n = n + 1 if n %% k == 0 then emit("gs", n, c) end return c end) end`},
 	{"select_receive_handler_loops", `local k = %d local ch = channel.make(1) ch:send(1) channel.select({"|<-", ch, function(ok, v) local n = 0 while true do n = n + 1 if n %% k == 0 then emit("sh", n, v) end end end})`},
 	{"select_send_handler_loop", `local k = %d local n = 0 local ch = channel.make(4) while true do channel.select({"<-|", ch, n, function(v) n = n + 1 if n %% k == 0 then emit("ss", n) end end}) local ok, v = ch:receive() end`},
+	{"index_chain_with_a_cycle", `local k = %d local n = 0 local a, b, c = {}, {}, {} setmetatable(a, {__index = b}) setmetatable(b, {__index = c}) setmetatable(c, {__index = b}) while true do local ok, e = pcall(function() return a.missing end) n = n + 1 if n %% k == 0 then emit("ic", n, ok) end end`},
 	{"error_handler_chain", `local k = %d local n = 0 local function f() n = n + 1 if n %% k == 0 then emit("eh", n) end local ok = pcall(f) error("again", 0) end pcall(f) while true do pcall(f) end`},
 }
 
@@ -109,6 +110,15 @@ emit("ok", coroutine.resume(co2, 41))
 emit("dead", coroutine.resume(co2, 1))`},
 	{"pcall_inside_coroutine", `local co = coroutine.wrap(function() for i = 1, 3 do local ok, e = pcall(error, "x" .. i, 0) coroutine.yield(ok, e) end end)
 for i = 1, 3 do emit("p", co()) end`},
+	// loops whose bodies are empty: every iteration is at least one dispatched instruction (checked below:
+	// MINSTEPS), or the loop could not be interrupted between two iterations
+	{"empty_loop_bodies", `local n = 0
+for i = 1, 700 do end
+for i = 700, 1, -1 do end
+for i = 1, 350, 0.5 do end
+while n < 700 do n = n + 1 end
+repeat n = n - 1 until n <= 0
+emit("done", n) -- MINSTEPS 4900`},
 }
 
 type vmRun struct {
@@ -119,9 +129,10 @@ type vmRun struct {
 var onThread bool    // set per run (single-threaded worker)
 var mainContext bool // with onThread: the main state keeps a context of its own that is never done
 var bare bool        // the program's entry is the first call ever made on the state
+var bgFirst bool     // the state starts under context.Background(); the program's reattach() attaches the simulated one
 
 func exec(proto *lua.FunctionProto, o lua.Options, withCtx bool, kind int, at int64, maxSteps int64) *vmRun {
-	h := hostapi.NewHost(hostapi.Options{LuaOptions: o, Kind: kind, At: at, MaxSteps: maxSteps, WithContext: withCtx, OnThread: onThread, MainContext: mainContext, Bare: bare})
+	h := hostapi.NewHost(hostapi.Options{LuaOptions: o, Kind: kind, At: at, MaxSteps: maxSteps, WithContext: withCtx, OnThread: onThread, MainContext: mainContext, Bare: bare, BackgroundFirst: bgFirst})
 	if !bare {
 		// math and channel are needed by some templates
 		h.L.Push(h.L.NewFunction(lua.OpenMath))
@@ -186,6 +197,12 @@ func (e *Engine) Run(t *core.Tape, cfg *core.Config, st *core.Stats) *core.Viola
 	}
 	// the context may be attached to a thread created from a context-less main state
 	onThread = name != "simlua" && t.Choose(3) == 0
+	bgFirst = false
+	if !onThread && strings.Contains(name, "@reattach") && t.Choose(2) == 0 {
+		bgFirst = true
+		name += "+bgfirst"
+		st.Probe("context_attached_over_background")
+	}
 	bare = false
 	if !onThread && t.Choose(4) == 0 {
 		bare = true
@@ -250,6 +267,13 @@ func (e *Engine) Run(t *core.Tape, cfg *core.Config, st *core.Stats) *core.Viola
 		}
 	}
 	S := r0.h.Steps
+	if i := strings.Index(src, "MINSTEPS "); i >= 0 {
+		var min int64
+		fmt.Sscan(src[i+len("MINSTEPS "):], &min)
+		if S < min {
+			return core.Violationf("iterations-without-dispatch", "the program executes at least %d loop iterations but only %d instructions were dispatched: iterations that complete inside one dispatch cannot be interrupted by a done context\n%s", min, S, desc())
+		}
+	}
 	if S == 0 {
 		return nil
 	}
@@ -259,6 +283,9 @@ func (e *Engine) Run(t *core.Tape, cfg *core.Config, st *core.Stats) *core.Viola
 
 	fired := 0
 	check := func(k int64) *core.Violation {
+		if bgFirst && k <= r0.h.ReattachStep+1 {
+			return nil // the simulated context is not attached yet (the state still runs under context.Background())
+		}
 		// after the fire the run may make at most 2*(D+1) more loop iterations; give it a generous but finite cap
 		r := exec(proto, o, true, hostapi.VCancel, k, k+int64(2*(300+1))+64)
 		st.Evals++
